@@ -1601,3 +1601,18 @@ package log
 //@   loop 1 invariant[C15:scan] 1 <= i && len(kvs) == split_count(tag, ',') && (forall j int :: 0 <= j && j < len(kvs) ==> kvs[j] == tagItem(tag, j))
 //@   loop 1 invariant[C15:none-so-far] forall j int :: 1 <= j && j < i && j < len(kvs) ==> itemOK(tag, j) && itemName(tag, j) != key
 //@   loop 1 decreases len(kvs) - i
+
+// ---- C02: one entry of a logger's tag list (the body of the range-over-func loop in Refresh) ---------------------
+// Captured variables, in order: the loop's jump state (0 = ready), err, name, Refresh's result, tags.
+//@ spec fun malformedWildcard(t string) bool = str_contains(t, "*") && !has_suffix(t, "_*")
+//@ func Refresh/rangefunc1
+//@   params item
+//@   requires freevar(0) == 0 && isold(sref(tags))
+//@   let t = str_trim(item)
+//@   let tags0 = tags
+//@   modifies cells(int), cells(error), cells([]string), elems(string)
+//@   nopanic[C02]
+//@   ensures[C02:blank-entries-are-skipped] t == "" ==> result && tags == tags0 && err == old(err) && freevar(3) == old(freevar(3))
+//@   ensures[C02:malformed-wildcard-is-an-error] t != "" && malformedWildcard(t) ==> !result && freevar(0) == 1 && freevar(3) != nil && tags == tags0
+//@   ensures[C02:entry-is-recorded-trimmed] t != "" && !malformedWildcard(t) ==> result && freevar(0) == 0 && len(tags) == len(tags0) + 1 && tags[len(tags0)] == t && freevar(3) == old(freevar(3))
+//@   ensures[C02:earlier-entries-kept] t != "" && !malformedWildcard(t) ==> (forall k int :: 0 <= k && k < len(tags0) ==> tags[k] == old(tags[k]))
